@@ -732,6 +732,13 @@ class NumInterp:
         else:
             base = p[1:]
             step = 0
+        if cond_inst["op"] == "fcmp" and (a.top != b_.top):
+            # an unknown float compared with a known one: refine it from (-inf, +inf) (NaN is not modelled anywhere in this domain)
+            inf = float("inf")
+            if a.top and a.kind == "float":
+                a = AV("float", a.bits, -inf, inf)
+            if b_.top and b_.kind == "float":
+                b_ = AV("float", b_.bits, -inf, inf)
         if a.top or b_.top:
             return out
         neg = {"lt": "ge", "le": "gt", "gt": "le", "ge": "lt", "eq": "ne", "ne": "eq"}
@@ -1005,6 +1012,31 @@ class NumInterp:
             if i in memo:
                 return memo[i]
             inst = self.inst_of.get(i)
+            if inst is not None and inst["op"] == "select" and any(self.depends(x["id"], refine) for x in inst.get("ops", []) if x["k"] in ("v", "arg")):
+                # a select inside a refined region (nested clamps): decide or split its condition under the refinement
+                ci = self.inst_of.get(inst["ops"][0].get("id"))
+                r = None
+                if ci is not None and ci["op"] in ("icmp", "fcmp"):
+                    try:
+                        a, c = self.operand(ci["ops"][0], refine), self.operand(ci["ops"][1], refine)
+                        r, _, _ = self.cmp_const(ci, a, c) if not (a.top or c.top) else (None, None, None)
+                    except Unsupported:
+                        r = None
+                if r is not None:
+                    v = go(inst["ops"][1 if r else 2]["id"]) if inst["ops"][1 if r else 2]["k"] == "v" else self.operand(inst["ops"][1 if r else 2], refine)
+                    memo[i] = v
+                    return v
+                rt, rf = self.refine_edge(ci, True, refine), self.refine_edge(ci, False, refine)
+                vals, doms = [], []
+                for arm, rr in ((1, rt), (2, rf)):
+                    if rr.get("__dead__"):
+                        continue
+                    o2 = inst["ops"][arm]
+                    vals.append(self.reeval(o2, rr) if o2["k"] == "v" else self.operand(o2, rr))
+                    doms.append(rr)
+                v = self.join(vals, doms) if vals else self.val.get(i)
+                memo[i] = v
+                return v
             if inst is None or inst["op"] in ("phi", "select", "call", "icmp", "fcmp", "load"):
                 return self.val.get(i)
             deps = [x["id"] for x in inst.get("ops", []) if x["k"] in ("v", "arg")]
